@@ -71,6 +71,16 @@ def pool():
     return vals
 
 
+def cyclic_values():
+    """lists that contain themselves, directly and through a row (a host's object graph is the host's): walking them must end"""
+    cyc = [1, 2]
+    cyc.append(cyc)
+    row = [3]
+    grid = [[1, row], [row, 4]]
+    row.append(grid)
+    return [cyc, grid]
+
+
 CORE = [0, 1, 4, 6, 9, 10, 13, 15, 16, 17, 19, 20, 21, 22, 24, 27, 30, 31, 33, 34, 35, 37, 38, 39, 44, 49]      # indices into pool()
 
 FRAGMENTS = ['1', '2', '12', '0', '.5', '1.5', '007', '%', '^', '+', '-', '*', '/', '&', '=', '<', '>', '<=', '>=', '<>', '(', ')', '{', '}', ',', ';', '\\', ':', '.',
@@ -497,6 +507,20 @@ class Check(BaseCheck):
                         rec.nt((f, i, debug))
                     rec.cov('passthrough_value_types', type(v).__name__)
         rec.sample({'formula': 'IF(TRUE,v_a,1)', 'v_a': 'every pool value in turn', 'what': 'host values as the value of the formula'})
+        # host lists that contain themselves: every function walks them to an end (an error is fine, an endless walk is not)
+        from hotxlfp import formulas
+        q = self.mkparser()
+        for ci, cv in enumerate(cyclic_values()):
+            q.set_variable('v_c', cv)
+            for fn in formulas.supported():
+                for shape in ('%s(v_c)', '%s(v_c,1)', '%s(1,v_c)'):
+                    got = self.guarded(q, shape % fn, 400, {'kind': 'cyclic-host-list', 'function': fn, 'which': ci})
+                    if got is not None:
+                        rec.nt(('cyclic', shape % fn, ci))
+            for f in ('v_c', 'v_c+1', 'v_c&""', 'v_c=v_c', '-v_c', '{v_c}', 'IF(TRUE,v_c,1)'):
+                # (element-wise operators descend a circular list until the interpreter's recursion limit stops them: bounded, ~30 lines a level)
+                self.guarded(q, f, 400, {'kind': 'cyclic-host-list', 'formula': f, 'which': ci})
+            rec.count('functions_given_a_list_that_contains_itself', len(formulas.supported()))
         # a record belongs to the caller: whatever the caller does to it (annotate it, overwrite its entries), the next record - of this
         # parser or of any other - is a record of exactly two entries again, and a different object
         import hotxlfp
